@@ -47,6 +47,20 @@ func (f *RunningEventFilter) ensureInit() error {
 	return f.initErr
 }
 
+// Invalidate discards the in-memory state of a lazily initialised filter so that the next
+// access rebuilds it from the database. Callers use it when a batch that carried this
+// filter's updates (see InsertWithBatch / OnReorgWithBatch) failed to commit: the memory
+// copy is then ahead of what is on disk.
+func (f *RunningEventFilter) Invalidate() {
+	f.mu.Lock()
+	defer f.mu.Unlock()
+	if f.initialize == nil {
+		return
+	}
+	f.inner, f.next, f.initErr = nil, 0, nil
+	f.lazyOnce = sync.Once{}
+}
+
 // NewRunningEventFilterHot returns a RunningEventFilter that wraps the provided
 // aggregated filter with the expected next block to process.
 func NewRunningEventFilterHot(
